@@ -50,7 +50,8 @@ def pool():
           X.Pg(((-1, 0, -1), (2, 0, -1), (2, 2, -1), (-1, 2, -1)))]
     # a box with one point inside and one outside whose coordinates differ only by -1 against -2 (equal CPython hashes), and
     # the segment between them: an answer remembered for one point must not serve the other (w6_C12_3)
-    P += [X.Ph(tuple(product((F(-3, 2), 1), (0, 1), (0, 1)))), X.Pt((-1, H, H)), X.Pt((-2, H, H)), X.Sg((-1, H, H), (-2, H, H))]
+    # (Point.__hash__ also hashes the products xy, yz, zx: they collide as well when the other coordinates are 1)
+    P += [X.Ph(tuple(product((F(-3, 2), 1), (0, 2), (0, 2)))), X.Pt((-1, 1, 1)), X.Pt((-2, 1, 1)), X.Sg((-1, 1, 1), (-2, 1, 1))]
     # half-lines in the plane z=0 whose carrier line x+y=0 touches the polygons there in the single vertex (0,0,0): one pointing away
     # from it (disjoint from the polygons although its carrier is not), one pointing at it (w6_C12_2)
     P += [X.Hl((1, -1, 0), (1, -1, 0)), X.Hl((1, -1, 0), (-1, 1, 0))]
